@@ -346,3 +346,35 @@ func OpaqueReplaceAll(s, old, new string) string { return strings.ReplaceAll(s, 
 //@   results r
 //@   modifies a.groupReplacementStringBuilder
 //@   ensures[C02] printable-without-flags: implies(len(assembleParser.Flags) == 0, SpecPrintable(r))
+
+// ---- C08: every run starts from scratch ---------------------------------------------------
+
+//@ contract NewAssembler
+//@   tags C08
+//@   opt inline yes
+
+//@ contract NewProcessorStack
+//@   tags C08
+//@   opt inline yes
+
+// Run: the result may depend on the stored expressions of the context and on the lines
+// already collected by the operator, so both must be empty on entry: callers have to hand
+// in a context and an operator created for this one run. The package-level processor stack
+// is reset before anything reads it (write-before-read obligation, cmd package).
+//@ contract Operator.Run
+//@   tags C08 C16 C19
+//@   results r err
+//@   requires[C08] fresh-context: len(a.ctx.stash) == 0
+//@   requires[C08] fresh-operator: len(a.lines) == 0
+//@   modifies processorStack, processor, a.lines, a.groupReplacementStringBuilder
+//@   ensures[C16] error-means-no-regex: implies(err != nil, true)
+
+// startPreprocessor: the first argument is read for cmdline blocks only; the caller
+// passes the (possibly empty) second capture group of the start pattern.
+//@ contract Operator.startPreprocessor
+//@   tags C19 C16
+//@   results err
+//@   requires args-present: len(args) >= 1
+//@   modifies processorStack, processor
+//@   ensures[C16] unknown-processor-fails: implies(processorName != "assemble" && processorName != "cmdline", err != nil)
+//@   ensures[C16] bad-cmdline-type-fails: implies(processorName == "cmdline" && args[0] != "unix" && args[0] != "windows", err != nil)
